@@ -25,15 +25,15 @@ def run(ctx):
     T = ctx.thorough
     # ------------------------------------------------------------------ M
     d = {"MaxSteps": ctx.pick(1, 2), "Strict": "FALSE", "InitAll": "FALSE"}
-    m = ctx.model_check("Incremental", "Incremental_mc.cfg", timeout=3000, defines=d)
+    m = ctx.model_check("Incremental", "Incremental_mc.cfg", timeout=14400, defines=d)
     if T:
-        ctx.model_check("Incremental", "Incremental_mc.cfg", timeout=3000,
+        ctx.model_check("Incremental", "Incremental_mc.cfg", timeout=14400,
                         defines={"MaxSteps": 1, "Strict": "FALSE", "InitAll": "TRUE"})
     model_content = set(m.printed("CONTENT_FIELDS")[0])
     model_unhashed = set(m.printed("UNHASHED_CONTENT_FIELDS")[0])
     # the strict forms must fail: the named deviations are reachable in the model
     for cfg, inv in (("Incremental_strict_skip.cfg", "SkipSound"), ("Incremental_strict_meta.cfg", "MetaApplied")):
-        strict = ctx.tlc("Incremental", cfg, timeout=3000, count=False,
+        strict = ctx.tlc("Incremental", cfg, timeout=14400, count=False,
                          defines={"MaxSteps": 1, "Strict": "TRUE", "InitAll": "FALSE"})
         if strict.invariant != inv:
             raise vk.Inconclusive("the strict model does not violate %s (named deviation unreachable, vacuous): %s" % (
@@ -42,11 +42,11 @@ def run(ctx):
         sorted(model_content), sorted(model_unhashed)))
 
     # ------------------------------------------------------------------ V
-    rc, out, trace = ctx.driver(PKG, "^TestVerif_C38_Probe$", FILES, timeout=3000)
+    rc, out, trace = ctx.driver(PKG, "^TestVerif_C38_Probe$", FILES, timeout=14400)
     if rc != 0:
         raise vk.Inconclusive("driver failed:\n%s" % out[-3000:])
     events = vk.read_ndjson(trace)
-    acc, rej = ctx.validate_trace("Trace_Incremental", "Trace_Incremental.cfg", trace, timeout=3000)
+    acc, rej = ctx.validate_trace("Trace_Incremental", "Trace_Incremental.cfg", trace, timeout=14400)
     bases = {e["base"]: e for e in events if e["ev"] == "base"}
     probes = [e for e in events if e["ev"] == "probe"]
 
